@@ -85,6 +85,18 @@ CHECKS = {
         "stay in range. Sub-banding only for non-negative delay tables. N<=12, C=8.",
         "DESIGN.md section 3 C07",
     ),
+    "C08": (
+        "exploration",
+        "exhaustive enumeration of (API, parameter) cells x channelisations x sampling times; header vs data consistency oracle",
+        "Every API that returns a container or writes a file (reductions, read_block incl. every sub-range and every (first channel, nchans) "
+        "selection requested by float32 label and by float64 value, read_dedisp_block, all eight file writers with start in {0,3}, block and "
+        "time-series derivations) is run on 5 channelisations (both signs, non-dyadic widths) x 2 sampling times and the product's header "
+        "is compared with what the data are: shape, on-disk depth, tsamp x factor, tstart + start*tsamp (5 us), DM applied, per-channel "
+        "labels vs the input channels the rows were built from, and the rows returned for a label request.",
+        "Labels are float32 in the library, so copies are compared within 1e-3 channel widths + 4 eps32 f. block.dm is accepted as the DM "
+        "record of a block. bandpass()/fold() excluded. One file size (12 x 8).",
+        "DESIGN.md section 3 C08",
+    ),
 }
 
 ENGINES = [
